@@ -35,7 +35,7 @@ def gen_case(rng, widths):
     path = () if rng.random() < 0.7 or not cands else rng.choice(cands)
     return {
         "tree": t, "how": rng.choice(["parsed", "parsed", "api"]), "path": list(path),
-        "indent": rng.choice(["", " ", "  ", "\t", "   ", "    "]), "align": rng.random() < 0.3, "width": rng.choice(widths),
+        "indent": rng.choice(["", " ", "  ", "\t", "   ", "    ", " \n" if rng.random() < 0.2 else "  "]), "align": rng.random() < 0.3, "width": rng.choice(widths),
         "decls": None if rng.random() < 0.7 else S.gen_decls(rng, S.tree_namespaces(t)),
     }
 
@@ -52,7 +52,14 @@ def has_empty_text(t):
     return t[0] == "t" and any(has_empty_text(k) for k in t[4])
 
 
+def known_region(case):
+    """open finding `newline-in-indentation`: line breaks inside the indentation string, with a line width"""
+    return case["width"] >= 1 and any(c in case["indent"] for c in "\n\r")
+
+
 def judge(run: Run, stream, case, before, res, model):
+    if known_region(case) and stream != "known":
+        return
     run.case(stream, case, trees.size(before) > 3)
     run.count("indent", repr(case["indent"]))
     run.count("width", case["width"])
@@ -130,6 +137,17 @@ def check(run: Run, lean: dict) -> int:
         "align_attributes, from the root or from a subtree that is reduced standing alone; non-trivial = more than 3 nodes"
     )
     ok = lean.get("driver_ok", True)
+    for f in common.known_findings("C03"):
+        if f.get("status") != "open":
+            continue
+        probe = Run(run.prop, run.tier, run.seed)
+        before, res = F.serialize_impl(f["replay"])
+        judge(probe, "known", f["replay"], before, res, None)
+        if probe.violations:
+            print(f"KNOWN-FINDING: property=C03 {f['key']}: {f['description']}")
+            run.known_hit.append(f["key"])
+        else:
+            run.notes.append(f"known finding {f['key']} no longer reproduces")
     run_cases(run, corpus(), "corpus", ok)
     run_cases(run, [gen_case(run.rng, widths) for _ in range(n)], "generated", ok)
     return run.finish(lean, LEVEL, ASSUME, search=search)
